@@ -154,7 +154,8 @@ def observe(rec):
         lst = {"status": "raises", "lines": []}
     else:
         lst = parse_list(rec["list"], n)
-    return {"tid": rec["tid"], "tree": case_tree, "status": status, "detail": detail, "obs": obs, "lst": lst}
+    return {"tid": rec["tid"], "tree": case_tree, "status": status, "detail": detail, "obs": obs, "lst": lst,
+            "listonly": bool(rec["tree"].get("listonly"))}
 
 
 def second_opinion(texts):
@@ -226,6 +227,8 @@ DOT_ATTR = [(r"^list$", r".*", ["C20", "C15"]), (r".*", r".*", ["C20"])]
 def list_rejections(tier, seed, workdir, count):
     """for C15: only the listing part (numbering in topological order) of a smaller family"""
     items = trees(tier, seed + 1000)[:count]
+    for item in items:
+        item["listonly"] = True        # judged on the listing alone, whatever the rendering is like
     recs, rejected = run_all(items, workdir)[:2]
     return recs, [r for r in rejected if r["op"] == "list"]
 
